@@ -1322,7 +1322,10 @@ func ruleLiteralBinOpCtor(r *Run) {
 		o.Fail("-", "function not found")
 		return
 	}
-	w := &feWalker{Fn: fn, MaxPath: 2000}
+	// helpers are followed except buildSampleBinOp, whose result is the operation itself
+	mpSample := p.Func(metricPkg, "buildSampleBinOp")
+	base := inlineHelpers(fn)
+	w := &feWalker{Fn: fn, MaxPath: 2000, Inline: func(c *ssa.Function, d int) bool { return c != mpSample && base(c, d) }}
 	n, bad := 0, false
 	for _, e := range w.Run() {
 		if isErr, known := endReturnsError(e); !known || isErr {
@@ -1332,6 +1335,13 @@ func ruleLiteralBinOpCtor(r *Run) {
 			continue
 		}
 		n++
+		st := e.State
+		unspill := func(v ssa.Value) ssa.Value {
+			if v == nil {
+				return nil
+			}
+			return unspillValue(w.evalVal(st, unspillValue(v)).V)
+		}
 		al, ok := stripTypeOnly(e.Results[0].V).(*ssa.Alloc)
 		if !ok || typeKey(al.Type()) != "literalBinOpIterator" {
 			bad = true
@@ -1343,7 +1353,7 @@ func ruleLiteralBinOpCtor(r *Run) {
 			bad = true
 			o.Fail(r.pos(e.Term.Pos()), "the literal iterator reads from %s, not from the iter parameter", describe(fs["iter"], 1))
 		}
-		if c, idx, ok := extractOf(fs["op"]); !ok || idx != 0 || !callIs(c, mp, "buildSampleBinOp") || unspill(c.Call.Args[0]) != ssa.Value(fn.Params[1]) {
+		if c, idx, ok := extractOf(unspill(fs["op"])); !ok || idx != 0 || !callIs(c, mp, "buildSampleBinOp") || unspill(c.Call.Args[0]) != ssa.Value(fn.Params[1]) {
 			bad = true
 			o.Fail(r.pos(e.Term.Pos()), "the operation is %s, not buildSampleBinOp(expr)", describe(fs["op"], 1))
 		}
@@ -1364,3 +1374,5 @@ func ruleLiteralBinOpCtor(r *Run) {
 		o.OK("%d successful path(s), each builds the literal iterator from the four parameters", n).At(r.pos(fn.Pos()))
 	}
 }
+
+func unspillValue(v ssa.Value) ssa.Value { return unspill(v) }
